@@ -170,6 +170,7 @@ package limiter
 //@ func updateUpstreamStateCondition props C07
 //@   requires [cluster] cluster != nil
 //@   modifies upstreamCondition.Spec, upstreamCondition.Status, fields("proxyv1alpha1.MaxRequestsInflightFlowControlSchema", "Max"), fields("proxyv1alpha1.TokenBucketFlowControlSchema", "QPS"), fields("proxyv1alpha1.TokenBucketFlowControlSchema", "Burst")
+//@   ensures [in_place] upstreamCondition != nil ==> result == upstreamCondition
 //@   ensures [one_status_per_schema] result != nil && len(NEWST) == len(SCHEMAS) && forall i int :: {NEWST[i]} 0 <= i && i < len(SCHEMAS) ==> NEWST[i].Name == SCHEMAS[i].Name
 //@   ensures [allocated_carried] upstreamCondition != nil ==> forall i int :: {NEWST[i]} 0 <= i && i < len(SCHEMAS) && (exists j0 int :: {OLDST[j0]} 0 <= j0 && j0 < len(OLDST) && OLDST[j0].Name == SCHEMAS[i].Name) ==> exists j int :: {OLDST[j]} 0 <= j && j < len(OLDST) && OLDST[j].Name == SCHEMAS[i].Name && NEWST[i].RequestLevel == OLDST[j].RequestLevel && (OLDST[j].LimitItemDetail.MaxRequestsInflight != nil ==> NEWST[i].LimitItemDetail.MaxRequestsInflight == OLDST[j].LimitItemDetail.MaxRequestsInflight) && (OLDST[j].LimitItemDetail.TokenBucket != nil ==> NEWST[i].LimitItemDetail.TokenBucket == OLDST[j].LimitItemDetail.TokenBucket)
 //@   ensures [recorded_values_kept] (forall p *proxyv1alpha1.MaxRequestsInflightFlowControlSchema :: {p.Max} !fresh(p) ==> p.Max == old(p.Max)) && (forall q *proxyv1alpha1.TokenBucketFlowControlSchema :: {q.QPS} {q.Burst} !fresh(q) ==> q.QPS == old(q.QPS) && q.Burst == old(q.Burst))
